@@ -52,6 +52,7 @@ type checkResult struct {
 	known      []string
 	bounded    map[string]any
 	notes      []string
+	batterySamples []any
 }
 
 func selectForProperty(id string, obls []*Oblig) []*Oblig {
@@ -121,9 +122,43 @@ func (V *Verifier) runProperty(spec *propSpec) *checkResult {
 			fmt.Fprintf(os.Stderr, "  %.2fs (gen %.2fs) %s %s\n", obls[i].Res.Secs, obls[i].GenSecs, obls[i].Res.Verdict, obls[i].Name)
 		}
 	}
+	if spec.BatteryIsCheck {
+		br := V.runBattery(spec.ID)
+		res.bounded["evaluations"] = br.Cases
+		dn := 0
+		if br.Stats != nil {
+			dn = br.Stats[spec.DistinctKey]
+		}
+		res.bounded["distinct_nontrivial"] = dn
+		var smp []any
+		for _, s := range br.Samples {
+			smp = append(smp, map[string]any{"input": s})
+		}
+		res.batterySamples = smp
+		res.bounded["bounded_run"] = map[string]any{"cmd": br.Cmd, "secs": round2(br.Secs), "failing": len(br.Failures), "stats": br.Stats, "error": br.Err,
+			"label": "bounded stand-in: the real functions are run on an enumerated input space against an independent reference; never counted as proved"}
+		if br.Err != "" || br.Cases == 0 {
+			o := &Oblig{Name: "bounded:" + spec.ID + ":did-not-run", Fn: "bounded", Kind: "bounded", Decided: true, Note: br.Err + " " + truncate(br.Output, 1500)}
+			o.Res = SolveResult{Verdict: Sat, Solver: "go test (bounded run)", Output: o.Note}
+			res.extraObls = append(res.extraObls, o)
+		}
+		for i, f := range br.Failures {
+			if i >= 5 {
+				break
+			}
+			o := &Oblig{Name: fmt.Sprintf("bounded:%s:%s@%d", spec.ID, f.Kind, i+1), Fn: "bounded", Kind: "bounded", Decided: true, Note: fmt.Sprintf("%s on %s: got %s want %s", f.Expr, f.Datum, truncate(f.Got, 300), truncate(f.Want, 300))}
+			o.Res = SolveResult{Verdict: Sat, Solver: "go test (bounded run)", Output: o.Note}
+			res.extraObls = append(res.extraObls, o)
+		}
+		if len(br.Failures) == 0 && br.Err == "" && br.Cases > 0 {
+			o := &Oblig{Name: "bounded:" + spec.ID + ":all-cases-agree", Fn: "bounded", Kind: "bounded", Decided: true}
+			o.Res = SolveResult{Verdict: Unsat, Solver: "go test (bounded run)"}
+			res.extraObls = append(res.extraObls, o)
+		}
+	}
 	// thorough tier: the replay battery is also run as a bounded cross-check
 	// (reported under coverage.bounded, never counted as proved)
-	if V.Tier == "thorough" && !spec.NoBattery {
+	if V.Tier == "thorough" && !spec.NoBattery && !spec.BatteryIsCheck {
 		br := V.runBattery(spec.ID)
 		res.bounded["bounded_battery"] = map[string]any{"cases": br.Cases, "failing": len(br.Failures), "cmd": br.Cmd, "secs": round2(br.Secs),
 			"label": "bounded: real code vs executable transcription of the spec on an enumerated battery; not counted in obligations/discharged"}
@@ -244,6 +279,7 @@ func (V *Verifier) report(spec *propSpec, res *checkResult, tier string, seed in
 	}
 	// evidence
 	samples := V.sampleObligations(all, failed)
+	samples = append(res.batterySamples, samples...)
 	funcs := append([]string(nil), spec.Funcs...)
 	var imprecise, notes []string
 	for _, k := range spec.Funcs {
